@@ -24,8 +24,14 @@ def c12(prop, tier, replay):
             want = rp["entry"]
             keep = [e for e in vf.read_ndjson(path) if e["k"] == want["k"] and e["sq"] == want["sq"] and e["sq2"] == want["sq2"]
                     and e["c"] == want["c"] and sorted(e["occ"]) == sorted(want["occ"])]
-            if not keep and want.get("cls") == "full":
-                raise vf.Infra("random full-board entries are replayed by re-running the check with the same VERIF_SEED")
+            if not keep and want.get("cls") == "full" and want["k"] in ("rook", "bishop"):
+                # a random full-board occupancy: recompute exactly that entry
+                one = os.path.join(work, "one.ndjson")
+                vf.run([bins["rec-attacks"], "-entry", json.dumps({"k": want["k"], "sq": want["sq"], "sq2": want["sq2"], "c": want["c"], "cls": "full", "occ": want["occ"]}),
+                        "-out", one], timeout=120)
+                keep = vf.read_ndjson(one)
+            if not keep:
+                raise vf.Infra("the entry of the replay file is not a table entry of this tree: %s" % json.dumps(want)[:300])
             with open(path, "w") as f:
                 for e in keep:
                     f.write(json.dumps(e) + "\n")
